@@ -15,6 +15,21 @@
     and well-formedness: `kindOK` (classes without mutable variant are immutable), `roots` (every name
     denotes a well-typed object graph whose flags are the ones the value level predicts), `defaults`
     (the shared default-argument objects are intact).
+
+  **What the refinement theorems do and do not say (audit F3).**  `Model.Heap` and `Spec.ValueSem`
+  deliberately share the following terms, so that a refinement statement is about *state* only:
+    `serVal` (= `Model.Wire.ser*`), `identOf` (GetHash = SHA-256d of the serialisation / of the header),
+    `txidOf` (GetTxid), `pyHashOf`/`pyHashBytes` (Python `hash()` as an opaque function of the bytes,
+    here the identity), `eqVals` (`__eq__`: class relation, reflected order), `validTx`/`validCtor`
+    (constructor range checks), `newBlockHdr`/`newBlockVal`/`merkleRoot` (the checks of
+    `CBlock.__init__`), `Field.apply` vs `applySc` (same field table), and — for the aliasing
+    catalogue — `Scalars`/`assemble`.
+  Consequently `refines_value_spec` (and `refines_alias_spec`) can only rule out aliasing, caching and
+  mutability-class errors: "the heap, with its sharing, its cache slots and its two class variants,
+  always answers as if every object were recomputed from its current field values".  The *content* of
+  serialisation, identifiers and `==` is the business of C01/C02 (`Model.Wire`, `Model.Ident`), the
+  constructor checks of C16, the merkle root of C15; the digest of `RawSignatureHash` of C03.
+  The bridge to C02's class clause is `heap_ident_eq_value` below.
 -/
 import BtcVerif.Proofs.HeapAll
 import BtcVerif.Proofs.ValueFrame
@@ -76,6 +91,62 @@ theorem no_shared_mutable {s : St} (hinv : Inv s) {r r' : Nat} {a b : Addr} {ta 
   rw [e1, e2] at h2
   have := hinv.sep x
   exact not_mem_of_cnt_zero hinv.immClosed hox hmx hb (by omega)
+
+/-- **bridge to C02** (audit, C02 §5): in a state satisfying the invariant, `GetHash()` of the object
+    at any address — instance of a mutable or of an immutable class, cache slot filled or empty —
+    returns the identifier of the value the object currently has -/
+theorem heap_ident_eq_value {s : St} (hinv : Inv s) {a : Addr} {v : Val} (h : absVal s.heap a = some v) :
+    ∃ h', getHashAt s.heap a = some (h', identOf v) := by
+  have ho : ∃ o : Obj, s.heap[a]? = some o := by
+    simp only [absVal] at h
+    cases hu : unfoldA D s.heap a with
+    | none => simp [hu] at h
+    | some t =>
+      rw [D_eq] at hu
+      obtain ⟨o, _, ho, _, _⟩ := unfoldA_succ hu
+      exact ⟨o, ho⟩
+  obtain ⟨o, ho⟩ := ho
+  simp only [getHashAt, ho, h, Option.bind_eq_bind, Option.bind_some]
+  by_cases hm : o.isMut = true
+  · exact ⟨s.heap, by simp [hm]⟩
+  · have hm' : o.isMut = false := by simpa using hm
+    simp only [hm', Bool.false_eq_true, if_false]
+    cases hc : o.cHash with
+    | some c =>
+      obtain ⟨v', hv', hi⟩ := (hinv.cacheOK a o ho hm').1 c hc
+      rw [h] at hv'; cases hv'
+      exact ⟨s.heap, by simp [hi]⟩
+    | none =>
+      cases hid : identOf v with
+      | ok c => exact ⟨_, rfl⟩
+      | error e => exact ⟨_, rfl⟩
+
+/-- the same for Python `hash()` -/
+theorem heap_pyhash_eq_value {s : St} (hinv : Inv s) {a : Addr} {v : Val} (h : absVal s.heap a = some v) :
+    ∃ h', pyHashAt s.heap a = some (h', pyHashOf v) := by
+  have ho : ∃ o : Obj, s.heap[a]? = some o := by
+    simp only [absVal] at h
+    cases hu : unfoldA D s.heap a with
+    | none => simp [hu] at h
+    | some t =>
+      rw [D_eq] at hu
+      obtain ⟨o, _, ho, _, _⟩ := unfoldA_succ hu
+      exact ⟨o, ho⟩
+  obtain ⟨o, ho⟩ := ho
+  simp only [pyHashAt, ho, h, Option.bind_eq_bind, Option.bind_some]
+  by_cases hm : o.isMut = true
+  · exact ⟨s.heap, by simp [hm]⟩
+  · have hm' : o.isMut = false := by simpa using hm
+    simp only [hm', Bool.false_eq_true, if_false]
+    cases hc : o.cPy with
+    | some c =>
+      obtain ⟨v', hv', hi⟩ := (hinv.cacheOK a o ho hm').2 c hc
+      rw [h] at hv'; cases hv'
+      exact ⟨s.heap, by simp [hi]⟩
+    | none =>
+      cases hid : pyHashOf v with
+      | ok c => exact ⟨_, rfl⟩
+      | error e => exact ⟨_, rfl⟩
 
 /-- assigning an attribute of an instance of an immutable class raises `AttributeError` and
     changes nothing -/
